@@ -272,23 +272,10 @@ def St.write (c : Cfg K V) (s : St K V) : St K V := { s with tree := writeInto c
 def St.commit (c : Cfg K V) (s : St K V) : St K V :=
   { s with tree := (writeInto c s.tree s.cache).commit, cache := [], metered := false, sess := none }
 
-/-- the keys an iteration visits: the keys of the working tree, of the block cache and of the
-    open session that lie in `[lo, hi)`, each once, in iteration order (`withPendingKeys`: the
-    tree's keys plus the pending ones, re-sorted) -/
-def St.iterKeys (c : Cfg K V) (s : St K V) (lo hi : Option K) (asc : Bool) : List K :=
-  let inR (k : K) : Bool :=
-    (match lo with | none => true | some l => !c.lt k l) &&
-    (match hi with | none => true | some h => c.lt k h)
-  let all := (akeys s.tree.working ++ akeys s.cache ++
-    (match s.sess with | some o => akeys o | none => [])).eraseDups
-  let ks := sortKeys c.lt (all.filter inR)
-  if asc then ks else ks.reverse
-
-/-- `State.IterateRange` (and `Iterate` with no bounds): the keys are those of the tree AND those
-    pending in the block cache or the session (an iteration visits what `Get` would find),
+/-- `State.IterateRange` (and `Iterate` with no bounds): keys come from the tree only,
     values are read through `State.Get`, keys with a pending delete are skipped -/
 def St.iter (c : Cfg K V) (s : St K V) (lo hi : Option K) (asc : Bool) : St K V × List (K × Option V) :=
-  (s.iterKeys c lo hi asc).foldl
+  (s.tree.rangeKeys c lo hi asc).foldl
     (fun (acc : St K V × List (K × Option V)) k =>
       if acc.1.deleted c k then acc
       else
